@@ -28,7 +28,7 @@ QUICK_SPACES = ('rn3', 'ud3', 'rn3w2', 'rn3wa', 'pw_rn2_2', 'pw_ud2_2', 'nest_rn
 DER_BASES = ['L1Norm', 'L2NormSquared', 'L2Norm', 'KullbackLeibler', 'IndicatorBox', 'Huber',
              'IndicatorLpUnitBall', 'KullbackLeiblerCrossEntropy', 'GroupL1Norm',
              'KullbackLeiblerConvexConj', 'IndicatorZero', 'ConstantFunctional']
-DER_KINDS = ['translated', 'leftscal', 'rightscal', 'rightscal_neg', 'quadpert_a0', 'scalarsum',
+DER_KINDS = ['translated', 'leftscal', 'leftscal_half', 'rightscal', 'rightscal_neg', 'quadpert_a0', 'scalarsum',
              'rightvec', 'quadpert']
 
 
